@@ -4,6 +4,7 @@ The real extension (built from the working tree with clang ASan+UBSan) is fed ut
 mount tables and hostile arguments; every call runs in a forked child so that a sanitizer
 abort is an observable answer.  Answers are compared with the Gallina model (coq/C17/Model.v)
 and with what the property demands (coq/C17/Spec.v)."""
+import json
 import os
 import struct
 
@@ -32,9 +33,12 @@ RULE = ("utmp files printed from records (every ut_type incl. negative, pid/time
         "bytes, fields up to 5000 bytes, 0-300 entries, all=True/False, /proc/filesystems drawn from a pool) plus malformed raw tables; "
         "every entry point of _psutil_linux/_psutil_posix with ints {0,+-1,2^31+-1,2^63+-1,2^70,...}, str of length 0,15,16,17,4096, "
         "embedded NUL, lone surrogate, bytes, None, float, lists (setters only on the forked child itself or absent PIDs); "
-        "Process.ionice(ioclass, value) through the public API; the live interface list against ioctl/sysfs read independently. "
+        "Process.ionice(ioclass, value) through the public API; the live interface list against ioctl/sysfs read independently; "
+        "fed interface lists through an LD_PRELOAD getifaddrs() shim compiled at check time (AF_PACKET records with sll_halen in "
+        "{0,1,4,6,8,16,20,32,255}, AF_INET/AF_INET6, unknown families, NULL addr/netmask/broadaddr, names up to IFNAMSIZ, every flag mix). "
         "Non-trivial = not the empty file / empty table; distinct = canonical case hash.")
-TRUSTED = ["correspondence harness props/C17.py + props/_c17_iso.py + pv/ (utmpname() redirection, fake PROCFS_PATH, fork isolation)",
+TRUSTED = ["correspondence harness props/C17.py + props/_c17_iso.py + props/_c17_ifshim.py + pv/ (utmpname() redirection, fake PROCFS_PATH, "
+           "fork isolation, getifaddrs() shim)",
            "clang 14 AddressSanitizer + UndefinedBehaviorSanitizer runtime as the observer of out-of-bounds accesses and integer overflow",
            "record formats transcribed in coq/C17/Spec.v (struct utmp x86-64, mounts line escapes, /proc/filesystems, IFF_* bits)",
            "glibc getutent/getmntent/getifaddrs/CPU_* macros: modelled (getmntent, CPU_SET) or trusted, not verified"]
@@ -42,6 +46,13 @@ ASSUMPTIONS = ["memory behaviour of the compiled code is observed only on the ge
                "about the model of the decoding logic and of the index/integer arithmetic",
                "mount entries with device '/dev/root' or 'rootfs' (resolved through the live /sys) and NUL bytes in the mounts file are out of the model",
                "live interface comparison asserts timing-free facts only (names, flags, MTU, MAC, addresses)"]
+try:
+    from props import _c17_ifshim as _S
+    if _S.compiler() is None:
+        ASSUMPTIONS.append("no C compiler found at check time: the fed interface list (getifaddrs shim) could not be built; "
+                           "net_if_addrs() was compared with the live interface list only (ifaddrs cases skipped)")
+except Exception:  # pragma: no cover
+    pass
 EXHAUSTIVE = {"quick": "argument classes x entry points: full product for one- and two-argument entry points",
               "thorough": "argument classes x entry points: full product incl. proc_ioprio_set (pid x ioclass x iodata) and ionice(ioclass, value)"}
 
@@ -256,6 +267,80 @@ def _entry_cases(rng, tier):
     return out
 
 
+IF_NAMES = [b"eth0", b"lo", b"ib0", b"ip6tnl0", b"a" * 15, b"a" * 16, "\u00e9th".encode(), b"wlp3s0", b"x", b""]
+IF_FLAGS = [0x1043, 0x49, 0x10d1, 0, 0x12, 0x2, 0x10, 0x1003]
+HALENS = [0, 1, 4, 6, 6, 6, 8, 16, 20, 32]
+V4 = ["c0000202", "7f000001", "0a080001", "ffffff00", "ff000000", "c00002ff", "00000000", "ffffffff"]
+V6 = ["fe8000000000000000fcfffffe000001", "00000000000000000000000000000001", "fd000000000000000000000000000002",
+      "20010db8000000000000000000000001", "ffffffffffffffff0000000000000000", "ffffffffffffffffffffffffffffffff",
+      "00000000000000000000000000000000"]
+
+
+def _ll_tok(rng, n=None):
+    n = rng.choice(HALENS) if n is None else n
+    data = bytes(n) if rng.random() < 0.15 else (b"\xff" * n if rng.random() < 0.15 else _rnd_bytes(rng, n).replace(b"\x01", b"\x00"))
+    return "L:%d:%d:%s" % (rng.choice([1, 32, 772, 769]), rng.randint(1, 40), data.hex())
+
+
+def _ifa_rec(rng, kind=None):
+    kind = kind or rng.choice(["ll", "ll", "ll", "v4", "v6", "none", "other"])
+    name = rng.choice(IF_NAMES)
+    if rng.random() < 0.03:
+        name = b"\xffeth"                      # not UTF-8
+    flags = rng.choice(IF_FLAGS)
+    if kind == "ll":
+        n = rng.choice(HALENS + ([255] if rng.random() < 0.1 else []))
+        return {"name": name.hex(), "flags": flags, "addr": _ll_tok(rng, n), "mask": _ll_tok(rng) if rng.random() < 0.15 else "-",
+                "baddr": _ll_tok(rng, rng.choice([n, n, 0, 6])) if rng.random() < 0.7 else "-"}
+    if kind == "v4":
+        return {"name": name.hex(), "flags": flags, "addr": "4:" + rng.choice(V4), "mask": "4:" + rng.choice(V4) if rng.random() < 0.85 else "-",
+                "baddr": "4:" + rng.choice(V4) if rng.random() < 0.7 else "-"}
+    if kind == "v6":
+        return {"name": name.hex(), "flags": flags, "addr": "6:%s:0" % rng.choice(V6), "mask": "6:%s:0" % rng.choice(V6) if rng.random() < 0.85 else "-",
+                "baddr": "6:%s:0" % rng.choice(V6) if rng.random() < 0.3 else "-"}
+    if kind == "none":
+        return {"name": name.hex(), "flags": flags, "addr": "-", "mask": "-", "baddr": "-"}
+    return {"name": name.hex(), "flags": flags, "addr": "U:%d" % rng.choice([1, 16, 0]), "mask": "-", "baddr": "-"}
+
+
+def _ifaddrs_cases(rng, n):
+    out = []
+    # every sll_halen once, with a broadcast address of the same length
+    recs = [{"name": b"hw%d" % h, "flags": 0x1043, "addr": "L:1:%d:%s" % (h + 1, bytes(range(1, h + 1)).hex()), "mask": "-",
+             "baddr": "L:1:%d:%s" % (h + 1, "ff" * h)} for h in (0, 1, 4, 6, 8, 16, 20, 32)]
+    for r in recs:
+        r["name"] = r["name"].hex()
+    out.append({"kind": "ifaddrs", "cls": "ifaddrs-halen", "recs": recs})
+    for _ in range(n):
+        recs = [_ifa_rec(rng) for _ in range(rng.choice([1, 2, 4, 8]))]
+        cls = "ifaddrs"
+        if any(r["addr"].startswith("L:") and len(r["addr"].split(":")[3]) > 16 for r in recs):
+            cls = "ifaddrs-longhw"
+        out.append({"kind": "ifaddrs", "cls": cls, "recs": recs})
+    return out
+
+
+def _sa_term(tok):
+    import ipaddress
+    if tok == "-":
+        return "None"
+    if tok[0] == "L":
+        return "(Some (SaLL %s))" % _hb(tok.split(":")[3])
+    if tok[0] == "4":
+        return "(Some (SaText 2 %s))" % G.by(str(ipaddress.IPv4Address(bytes.fromhex(tok[2:]))))
+    if tok[0] == "6":
+        return "(Some (SaText 10 %s))" % G.by(str(ipaddress.IPv6Address(bytes.fromhex(tok.split(":")[1]))))
+    return "(Some (SaOther %s))" % G.z(int(tok[2:]))
+
+
+def _group_rows(rows):
+    """rows [name, fam, addr, mask, bcast, ptp] in psutil's order -> what the dict of net_if_addrs() looks like"""
+    d = {}
+    for r in rows:
+        d.setdefault(r[0]["b"], []).append(r[1:])
+    return [[k, v] for k, v in d.items()]
+
+
 def _live_ifaces():
     """Independent reading of the kernel's interface list (ioctl through Python's fcntl, sysfs, /proc/net/if_inet6)."""
     import fcntl
@@ -374,6 +459,7 @@ def gen_cases(rng, tier):
     # ---- arguments
     for hi, lo, dup in [(0, 0, 255), (0, 1000, 1), (0, 10, 0), (65535, 65535, 255), (32767, 65535, 1), (32768, 0, 1), (1, 34464, 1), (0, 1000, 7)]:
         cases.append({"kind": "speed", "cls": "speed", "hi": hi, "lo": lo, "duplex": dup})
+    cases.extend(_ifaddrs_cases(rng, {"quick": 10, "thorough": 150, "search": 20}[tier]))
     if tier != "search":
         cases.extend(_entry_cases(rng, tier))
         cases.extend(_live_ifaces())
@@ -428,6 +514,9 @@ def coq_term(case):
         return "run_entry %s %s %s" % (G.bo(FIXED_IOPRIO), ENTRY_COQ[case["ep"]], G.lst([_pyval(a) for a in case["args"]]))
     if k == "ionice":
         return "run_ionice %s 0 %s %s" % (G.bo(FIXED_IOPRIO), G.z(case["ioclass"]), G.z(case["value"] or 0))
+    if k == "ifaddrs":
+        return "run_ifaddrs %s" % G.lst(["(Build_ifa %s %s %s %s %s)" % (_hb(r["name"]), G.z(r["flags"]), _sa_term(r["addr"]),
+                                                                     _sa_term(r["mask"]), _sa_term(r["baddr"])) for r in case["recs"]])
     if k == "speed":
         return "run_speed %s %s %s %s" % (G.bo(FIXED_ETHTOOL), G.z(case["hi"]), G.z(case["lo"]), G.z(case["duplex"]))
     if k == "netif":
@@ -457,6 +546,16 @@ def coq_struct(case, raw):
     if k in ("entry", "ionice"):
         os_reached = isinstance(raw, dict) and raw.get("t") == "Os"
         return {"cres": raw, "model": None if os_reached else raw, "spec": None}
+    if k == "ifaddrs":
+        m = raw[0]
+        if _oom(m):
+            model = None
+        elif m.get("t") == "Val":
+            model = Val(_group_rows(m["a"][0]))
+        else:
+            model = m
+        spec = None if raw[1] is None else sorted(json.dumps(r, sort_keys=True) for r in raw[1]["a"][0])
+        return {"model": model, "spec": spec}
     if k == "speed":
         ub = isinstance(raw, dict) and raw.get("t") == "UB"
         return {"model": raw, "spec": None, "ub": ub}
@@ -558,6 +657,16 @@ def judge(case, coq, impl):
     parts = impl if isinstance(impl, list) else [impl]
     if any(_is_abort(p) or p == T("OOB") for p in parts):
         return Verdict("violation", "crash / sanitizer abort: %s" % (str(impl)[:400],))
+    if k == "ifaddrs":
+        if coq["spec"] is not None:
+            got = None
+            if isinstance(impl, dict) and impl.get("t") == "Val":
+                got = sorted(json.dumps([{"b": name}] + row, sort_keys=True) for name, rows in impl["a"][0] for row in rows)
+            if got != coq["spec"]:
+                return Verdict("violation", "net_if_addrs() over the fed interface list != spec (rows compared as a multiset)")
+        if coq["model"] is not None and impl != coq["model"]:
+            return Verdict("corr", "impl != model")
+        return Verdict("ok")
     if k in ("utmp", "utmp_raw", "netif", "speed"):
         if coq["spec"] is not None and impl != coq["spec"]:
             return Verdict("violation", "impl != spec")
@@ -675,6 +784,20 @@ def impl_run(case, coq, env):
             p = psutil.Process()
             return _outcome(lambda: p.ionice(case["ioclass"], case["value"]), lambda v: None if v is None else T("Some", repr(v)[:80]))
         return _iso(call)
+    if k == "ifaddrs":
+        from props import _c17_ifshim as S
+        so = S.build(work)
+        if so is None:
+            return T("Skip", "no C compiler: fed interface list unavailable, net_if_addrs() compared live-only")
+        r = S.run(so, work, case["recs"])
+        if r[0] != "ok":
+            return _abort_value(r[1], r[2])
+        if r[1][0] == "exc":
+            return Exc(r[1][1])
+
+        def b(x):
+            return None if x is None else {"b": x}
+        return Val([[name, [[row[0], b(row[1]), b(row[2]), b(row[3]), b(row[4])] for row in rows]] for name, rows in r[1][1]])
     if k == "speed":
         live = [c for c in _live_ifaces() if c["eth"] == [case["hi"], case["lo"], case["duplex"]]]
         if not live:
